@@ -42,6 +42,11 @@ def validate (ext : Ext) (g : Genesis) : Bool :=
   && noDup (g.used.map fun u => Key.usedNonce u.1 u.2)
   && noDup (g.messengers.map fun m => Key.messenger m.1)
 
+/-- the stored next-available-nonce record (default 0 when the genesis field is absent). -/
+def nonceVal : Option (Nat × Nat) → Val
+  | some (d, n) => .nonce d n
+  | none => .nonce 0 0
+
 /-- the writes of `InitGenesis`, in order. -/
 def initWrites (ext : Ext) (g : Genesis) : List Store.Write :=
   [ (Key.owner, some (.role g.owner)), (Key.attesterManager, some (.role g.attesterManager)),
@@ -51,7 +56,7 @@ def initWrites (ext : Ext) (g : Genesis) : List Store.Write :=
   ++ [ (Key.burnPaused, some (.flag (g.burnPaused.getD true))),
        (Key.sendPaused, some (.flag (g.sendPaused.getD true))),
        (Key.maxBody, some (.size (g.maxBody.getD 8000))),
-       (Key.nextNonce, some (match g.nextNonce with | some (d, n) => .nonce d n | none => .nonce 0 0)),
+       (Key.nextNonce, some (nonceVal g.nextNonce)),
        (Key.threshold, some (.threshold (g.threshold.getD 1))) ]
   ++ g.pairs.map (fun p => (Key.tokenPair ext p.1 p.2.1, some (.pair p.1 p.2.1 p.2.2)))
   ++ g.used.map (fun u => (Key.usedNonce u.1 u.2, some (.nonce u.1 u.2)))
@@ -65,6 +70,11 @@ def init (ext : Ext) (st : Store) (g : Genesis) : R Store := do
 def scanMap {α} (st : Store) (p : Bytes) (f : Val → Option α) : List α :=
   (st.scan p).filterMap fun kv => f kv.2
 
+def limOf : Val → Option (Bytes × Int) | .limit d a => some (d, a) | _ => none
+def pairOf : Val → Option (Nat × Bytes × Bytes) | .pair d t l => some (d, t, l) | _ => none
+def usedOf : Val → Option (Nat × Nat) | .nonce d n => some (d, n) | _ => none
+def msgrOf : Val → Option (Nat × Bytes) | .messenger d a => some (d, a) | _ => none
+
 /-- `ExportGenesis`: the four role getters panic when absent; the pending owner is not exported. -/
 def exportG (st : Store) : R Genesis := do
   let owner ← getMust (getRole st Key.owner)
@@ -74,16 +84,16 @@ def exportG (st : Store) : R Genesis := do
   pure {
     owner := owner, attesterManager := am, pauser := pa, tokenController := tc
     attesters := attestersOf st
-    limits := scanMap st PerMessageBurnLimitKeyPrefix fun | .limit d a => some (d, a) | _ => none
+    limits := scanMap st PerMessageBurnLimitKeyPrefix limOf
     -- DefaultGenesis() presets both flags to false; a stored value overrides it
     burnPaused := some ((getFlag st Key.burnPaused).getD false)
     sendPaused := some ((getFlag st Key.sendPaused).getD false)
     maxBody := getSize st
     nextNonce := getNextNonce st
     threshold := getThreshold st
-    pairs := scanMap st TokenPairKeyPrefix fun | .pair d t l => some (d, t, l) | _ => none
-    used := scanMap st UsedNonceKeyPrefix fun | .nonce d n => some (d, n) | _ => none
-    messengers := scanMap st RemoteTokenMessengerKeyPrefix fun | .messenger d a => some (d, a) | _ => none }
+    pairs := scanMap st TokenPairKeyPrefix pairOf
+    used := scanMap st UsedNonceKeyPrefix usedOf
+    messengers := scanMap st RemoteTokenMessengerKeyPrefix msgrOf }
 
 end Genesis
 end Cctp
